@@ -1,4 +1,5 @@
 import AffVerif.Proofs.CertSound
+import AffVerif.Proofs.Chebyshev
 import AffVerif.Model.LP
 /-!
 # C10 — the LP layer classifies polytopes and optimises correctly
@@ -43,7 +44,76 @@ theorem C10_isFeasible_spec {σ : Type} (lp : LPOracle σ α) (s : σ) (p : Aff 
   rcases h : lp s p (zeros p.indim) with ⟨a, s'⟩
   cases a <;> simp
 
+/-- optimality: a primal/dual pair accepted by the referee's checker proves that `x` lies in the set, has objective
+    value `v`, and that `v` is the true minimum -/
+theorem C10_optimal_cert_sound (n : Nat) (p : Aff α) (c x : List α) (v : α) (y : List α)
+    (h : checkOptimal n p c x v y = true) :
+    Poly.Mem p x ∧ dot c x = v ∧ ∀ z, Poly.Mem p z → v ≤ dot c z :=
+  checkOptimal_sound n p c x v y h
+
+/-- unboundedness: a point/ray pair accepted by the referee's checker proves that the set is non-empty and the
+    objective is unbounded below on it -/
+theorem C10_unbounded_cert_sound (n : Nat) (p : Aff α) (c x d : List α) (h : checkUnbounded n p c x d = true) :
+    (∃ z, Poly.Mem p z) ∧ ∀ M : α, ∃ z, Poly.Mem p z ∧ dot c z < M := by
+  refine ⟨?_, checkUnbounded_sound n p c x d h⟩
+  obtain ⟨z, hz, _⟩ := checkUnbounded_sound n p c x d h 0
+  exact ⟨z, hz⟩
+
+/-- the three verdicts of the referee exclude each other: a certified optimum rules out unboundedness and emptiness -/
+theorem C10_verdicts_exclusive (n : Nat) (p : Aff α) (c x : List α) (v : α) (y : List α)
+    (h : checkOptimal n p c x v y = true) :
+    (∀ x' d, checkUnbounded n p c x' d = false) ∧ (∀ y', checkInfeasible p.indim (polyRows p) y' = false) := by
+  obtain ⟨hx, _, hmin⟩ := checkOptimal_sound n p c x v y h
+  constructor
+  · intro x' d
+    by_contra hc
+    have hu : checkUnbounded n p c x' d = true := by simpa using hc
+    obtain ⟨z, hz, hlt⟩ := checkUnbounded_sound n p c x' d hu v
+    have := hmin z hz
+    linarith
+  · intro y'
+    by_contra hc
+    have hi : checkInfeasible p.indim (polyRows p) y' = true := by simpa using hc
+    exact C10_farkas_sound p y' hi ⟨x, hx⟩
+
+/-- the Chebyshev-centre program: `(x, r)` satisfies it exactly when `r ≥ 0` and the closed ball of radius `r`
+    around `x` lies in the polytope (`norms` are the Euclidean row norms: `s ≥ 0`, `s² = a·a`) -/
+theorem C10_chebyshev_program (p : Aff α) (norms : List α) (hwf : p.WF) (hlen : norms.length = p.mat.length)
+    (hn : ∀ t ∈ p.mat.zip norms, 0 ≤ t.2 ∧ t.2 * t.2 = dot t.1 t.1)
+    (x : List α) (hx : x.length = p.indim) (r : α) :
+    Poly.Mem (Poly.chebyshev p norms).1 (x ++ [r]) ↔
+      0 ≤ r ∧ ∀ u : List α, u.length = p.indim → dot u u ≤ r * r → Poly.Mem p (vadd x u) :=
+  chebyshev_spec p norms hwf hlen hn x hx r
+
+/-- hence a certified optimum of the program is the centre and radius of a *largest* inscribed ball -/
+theorem C10_chebyshev_largest (p : Aff α) (norms : List α) (hwf : p.WF) (hlen : norms.length = p.mat.length)
+    (hn : ∀ t ∈ p.mat.zip norms, 0 ≤ t.2 ∧ t.2 * t.2 = dot t.1 t.1)
+    (x : List α) (hx : x.length = p.indim) (r v : α) (y : List α)
+    (hopt : checkOptimal (p.indim + 1) (Poly.chebyshev p norms).1 (Poly.chebyshev p norms).2 (x ++ [r]) v y = true) :
+    (0 ≤ r ∧ ∀ u : List α, u.length = p.indim → dot u u ≤ r * r → Poly.Mem p (vadd x u)) ∧
+    ∀ (x' : List α) (r' : α), x'.length = p.indim → 0 ≤ r' →
+      (∀ u : List α, u.length = p.indim → dot u u ≤ r' * r' → Poly.Mem p (vadd x' u)) → r' ≤ r := by
+  obtain ⟨hmem, hval, hmin⟩ := checkOptimal_sound _ _ _ _ _ _ hopt
+  refine ⟨(chebyshev_spec p norms hwf hlen hn x hx r).mp hmem, fun x' r' hx' hr' hball => ?_⟩
+  have hm' := (chebyshev_spec p norms hwf hlen hn x' hx' r').mpr ⟨hr', hball⟩
+  have h1 := hmin _ hm'
+  -- the cost vector is `(0, …, 0, −1)`: the value of `(x, r)` is `−r`
+  have hcost : ∀ (z : List α) (q : α), z.length = p.indim → dot (Poly.chebyshev p norms).2 (z ++ [q]) = -q := by
+    intro z q hz
+    unfold Poly.chebyshev
+    simp only
+    rw [dot_append _ _ _ _ (by simp [hz])]
+    simp
+  rw [hcost x' r' hx'] at h1
+  rw [hcost x r hx] at hval
+  linarith
+
 /-- non-vacuity: `x ≤ 1, −x ≤ −2` is refuted by the multipliers `(1, 1)` -/
 example : checkInfeasible 1 (polyRows (⟨[[1], [-1]], [1, -2], 1⟩ : Aff Rat)) [1, 1] = true := by decide +kernel
+
+/-- non-vacuity: `min x` over `−1 ≤ x ≤ 3` has the optimum `x = −1` with multipliers `(0, 1)` -/
+example : checkOptimal 1 (⟨[[1], [-1]], [3, 1], 1⟩ : Aff Rat) [1] [-1] (-1) [0, 1] = true := by decide +kernel
+/-- non-vacuity: `min −x` over `x ≥ −1` is unbounded along `d = 1` -/
+example : checkUnbounded 1 (⟨[[-1]], [1], 1⟩ : Aff Rat) [-1] [0] [1] = true := by decide +kernel
 
 end AV
